@@ -177,6 +177,13 @@ def encState : Col → Bytes → Bytes
   | .pair a b, buf => encState b (encState a buf)
   | _, buf => buf
 
+/-- wire image of a scalar dictionary column (the LowCardinality index) -/
+def dictBytes (t : Ty) (dict : List Bytes) : Bytes :=
+  match t with
+  | .str => (dict.map fun r => putUvarint r.length ++ r).flatten
+  | .uuid => (dict.map swap64).flatten
+  | _ => dict.flatten
+
 /-- `EncodeColumn` after `Prepare`.  For `enumStr` with a value outside the table `Prepare`
 fails and nothing is encoded (`encOK` below says when that happens). -/
 def encCol : Col → Bytes → Bytes
@@ -197,10 +204,7 @@ def encCol : Col → Bytes → Bytes
       let (dict, keys) := lcPrepare t [] rows
       let code := lcKeyCode dict.length
       buf ++ i64le (0x600 + code) ++ i64le dict.length
-        ++ (match t with
-            | .str => (dict.map fun r => putUvarint r.length ++ r).flatten
-            | .uuid => (dict.map swap64).flatten
-            | _ => dict.flatten)
+        ++ dictBytes t dict
         ++ i64le rows.length ++ (keys.map fun k => leBytes (keyWidth code) k).flatten
   | .map offs k v, buf =>
     if offs.isEmpty then buf
